@@ -87,6 +87,21 @@ func (it *DescendingEntryIterator) Next() *Entry {
 	return it.prevEntry()
 }
 
+// Removes from the underlying collection the last element returned.
+// Unlike the ascending iterator, `next` (the predecessor) is never the node that
+// deleteEntry overwrites with the successor's content, so it must not be re-targeted.
+func (it *DescendingEntryIterator) Remove() {
+	if it.lastReturned == nil {
+		panic("DescendingEntryIterator: illegal state")
+	}
+	if it.expectedVersion != it.owner.version {
+		panic("DescendingEntryIterator: concurrent modification")
+	}
+	it.owner.deleteEntry(it.lastReturned)
+	it.lastReturned = nil
+	it.expectedVersion = it.owner.version
+}
+
 type KeyIterator struct {
 	EntryIterator
 }
